@@ -502,7 +502,11 @@ class StmtMixin:
                     hs_ = []
                     for h in spec.hints:
                         r_ = h(Ctx(self, o.state, self.entry_state), k, vv)
-                        hs_.extend(r_ if isinstance(r_, (list, tuple)) else [r_])
+                        r_ = list(r_) if isinstance(r_, (list, tuple)) else [r_]
+                        if getattr(h, "for_clauses", None) is not None:
+                            from .engine import TaggedHint
+                            r_ = [TaggedHint(x, h.for_clauses) for x in r_]
+                        hs_.extend(r_)
                     self.emit_with_hints("inv.step", spec.label, o.state, inv_at(o.state, k + 1), hs_)
                 else:
                     self.emit("inv.step", spec.label, o.state, inv_at(o.state, k + 1))
@@ -625,7 +629,14 @@ class StmtMixin:
                     if spec.hints:
                         vv = Vars(o.state.env)
                         vv.head = Vars(head_env)
-                        hs_ = [h(Ctx(self, o.state, self.entry_state), k, vv) for h in spec.hints]
+                        hs_ = []
+                        for h in spec.hints:
+                            r_ = h(Ctx(self, o.state, self.entry_state), k, vv)
+                            r_ = list(r_) if isinstance(r_, (list, tuple)) else [r_]
+                            if getattr(h, "for_clauses", None) is not None:
+                                from .engine import TaggedHint
+                                r_ = [TaggedHint(x, h.for_clauses) for x in r_]
+                            hs_.extend(r_)
                         self.emit_with_hints("inv.step", spec.label, o.state, inv_at(o.state, k + 1), hs_)
                     else:
                         self.emit("inv.step", spec.label, o.state, inv_at(o.state, k + 1))
